@@ -21,10 +21,10 @@ def L0 : Log := Log.empty 9
 def L1 : Log := (append acl.canAppend L0 (fun _ _ => a)).1
 def L2 : Log := (append acl.canAppend L1 (fun _ _ => b)).1
 def batch : List (OMap × OMap) := [([a, c], [c])]
-def L3 : Log := (joinAllPinned acl L2 batch).1
+def L3 : Log := joinAll acl L2 batch
 
 def ops : List SOp :=
-  [.write a, .write b, .fetched c, .merged (batch.flatMap (·.1)) ((sortedHeads L3).map (·.hash))]
+  [.write a, .write b, .fetched c, .merged (joinedEntries acl L2 batch) ((sortedHeads L3).map (·.hash))]
 
 def T : List Eff := trace ops
 
@@ -41,7 +41,7 @@ theorem valid : ValidHist acl U 9 ops L3 := by
     have : p = ([a, c], [c]) := by simpa [batch] using hp
     subst this
     exact ⟨⟨by decide, by decide⟩, by decide⟩
-  exact ValidHist.merged batch L3 v3 hB (Prod.ext rfl (by decide)) (by decide)
+  exact ValidHist.merged batch L3 v3 hB rfl (by decide)
 
 /-- the effect trace of the history -/
 theorem trace_eq : T =
@@ -73,12 +73,7 @@ example : ∀ h ∈ [3, 2], ∀ x, Anc U h x → Eff.block x ∈ (T.take 7) :=
   blocks_before_heads hU hM valid (T.take 7) [.replicated [1, 3]] [3, 2] (.cacheRemote [3, 2])
     (Or.inr rfl) (by decide)
 
-/-- why `BatchOk.parents` is assumed: a merged entry whose parent's block is missing is recovered
-without its parent -/
-example : recover U (diskOf [.block 3, .cacheRemote [3], .replicated [3]]) = [3] ∧ 1 ∈ c.next := by
-  decide
-
-/-! ### A history with an aborted batch: the log outgrows the cache, the property still holds -/
+/-! ### A history with a rejected log in the batch: it is skipped, the rest is merged and cached -/
 
 def bad : Entry := { hash := 5, logId := 9, time := 1, cid := 2, next := [], ident := 7 }
 def d : Entry := { hash := 4, logId := 9, time := 3, cid := 0, next := [3] }
@@ -89,38 +84,82 @@ theorem hU' : HashDet U' := by unfold HashDet; decide
 theorem hM' : ClockMono U' := by unfold ClockMono; decide
 
 def K1 : Log := (append acl'.canAppend L0 (fun _ _ => a)).1
-def batch' : List (OMap × OMap) := [([a, c], [c]), ([bad], [bad])]
-/-- `[a, c]` is merged, `[bad]` is refused: `replicationLoadComplete` returns early -/
-def K2 : Log := (joinAllPinned acl' K1 batch').1
+def batch' : List (OMap × OMap) := [([bad], [bad]), ([a, c], [c])]
+/-- `[bad]` is refused and skipped, `[a, c]` is merged -/
+def K2 : Log := joinAll acl' K1 batch'
 def K3 : Log := (append acl'.canAppend K2 (fun _ _ => d)).1
-def ops' : List SOp := [.write a, .fetched c, .fetched bad, .write d]
+def ops' : List SOp :=
+  [.write a, .fetched c, .fetched bad,
+   .merged (joinedEntries acl' K1 batch') ((sortedHeads K2).map (·.hash)), .write d]
+
+theorem batch'_honest : BatchHonest U' K1.id batch' := by
+  intro p hp
+  have : p = ([bad], [bad]) ∨ p = ([a, c], [c]) := by simpa [batch'] using hp
+  rcases this with rfl | rfl
+  · exact ⟨⟨by decide, by decide⟩, by decide⟩
+  · exact ⟨⟨by decide, by decide⟩, by decide⟩
 
 theorem valid' : ValidHist acl' U' 9 ops' K3 := by
   have v1 : ValidHist acl' U' 9 [.write a] K1 :=
     ValidHist.write (fun _ _ => a) ValidHist.nil (by decide) (fun _ => by decide)
   have v2 : ValidHist acl' U' 9 [.write a, .fetched c, .fetched bad] K1 :=
     ValidHist.fetched bad (ValidHist.fetched c v1)
-  have hB : BatchOk U' (trace [.write a, .fetched c, .fetched bad]) K1 batch' K2 := by
-    refine ⟨?_, by decide, by decide⟩
-    intro p hp
-    have : p = ([a, c], [c]) ∨ p = ([bad], [bad]) := by simpa [batch'] using hp
-    rcases this with rfl | rfl
-    · exact ⟨⟨by decide, by decide⟩, by decide⟩
-    · exact ⟨⟨by decide, by decide⟩, by decide⟩
-  have v3 : ValidHist acl' U' 9 [.write a, .fetched c, .fetched bad] K2 :=
-    ValidHist.aborted batch' K2 v2 hB (Prod.ext rfl (by decide))
+  have hB : BatchOk U' (trace [.write a, .fetched c, .fetched bad]) K1 batch' K2 :=
+    ⟨batch'_honest, by decide, by decide⟩
+  have v3 := ValidHist.merged batch' K2 v2 hB rfl (by decide)
   exact ValidHist.write (fun _ _ => d) v3 (by decide) (fun _ => by decide)
 
-/-- after the abort the log holds `c`, the cache names only `a`; a crash there recovers `[a]`
-(nothing about `c` was reported); the next write names `c` as its parent and brings it back -/
-example : K2.entries.map (·.hash) = [1, 3] ∧
+/-- the first join is rejected, the second is done; only the entries of the second are reported;
+`_remoteHeads` is written although a log was rejected, so a crash right after it recovers `c` -/
+example : (join acl'.canAppend K1 [bad] [bad] K1.id matches .error .denied) = true ∧
+    K2.entries.map (·.hash) = [1, 3] ∧
     trace ops' = [.block 1, .cacheLocal [1], .ack 1, .block 3, .block 5,
+                  .cacheRemote [3], .replicated [1, 3],
                   .block 4, .cacheLocal [4], .ack 4] ∧
     recover U' (diskOf ((trace ops').take 5)) = [1] ∧
-    recover U' (diskOf ((trace ops').take 6)) = [1] ∧
+    recover U' (diskOf ((trace ops').take 6)) = [3, 1] ∧
     recover U' (diskOf (trace ops')) = [1, 3, 4] := by decide
 
 example (n : Nat) :=
   crash_recovers hU' hM' valid' ((trace ops').take n) (List.take_prefix n _)
 
-end Orbit.CrashExample
+/-! ### Why `BatchOk.parents` is assumed: an accepted child whose parent is rejected
+
+`e` (authorised) names `bad'` (unauthorised) as its parent. When the two arrive as separate logs
+(the replicator buffers one log per fetched entry), `[bad']` is skipped and `e` is merged with a
+dangling `next` link: the log is not closed under `next`, `BatchOk.parents` fails. The blocks of both
+are on disk, so following the links from the cached head reaches `bad'`, which the log never held:
+the recovered set is not a part of the pre-crash log (conclusion (iv) of `crash_recovers` fails), and
+`Load` itself, which joins everything reachable from the head as one log, has that join refused and
+loses `e`, although `e` was reported as replicated. -/
+
+def bad' : Entry := { hash := 5, logId := 9, time := 2, cid := 2, next := [1], ident := 7 }
+def e : Entry := { hash := 6, logId := 9, time := 3, cid := 1, next := [5] }
+def U'' : List Entry := [a, bad', e]
+def batch'' : List (OMap × OMap) := [([e], [e]), ([bad'], [bad'])]
+def M2 : Log := joinAll acl' K1 batch''
+def T'' : List Eff := trace [.write a, .fetched e, .fetched bad',
+  .merged (joinedEntries acl' K1 batch'') ((sortedHeads M2).map (·.hash))]
+
+theorem rejected_parent_merged :
+    HashDet U'' ∧ ClockMono U'' ∧ M2.entries = [a, e] ∧ joinedEntries acl' K1 batch'' = [e] ∧
+    ¬ Closed M2 ∧
+    ¬ (∀ p ∈ batch'', ∀ x ∈ p.1, x ∈ M2.entries → ∀ n ∈ x.next, has M2.entries n = true) := by
+  unfold HashDet ClockMono Closed; decide
+
+theorem rejected_parent_recovered :
+    T'' = [.block 1, .cacheLocal [1], .ack 1, .block 6, .block 5, .cacheRemote [6, 1], .replicated [6]] ∧
+    recover U'' (diskOf T'') = [5, 6, 1] ∧ has M2.entries 5 = false := by decide
+
+/-- `Load` after that crash: the log fetched from the cached head `e` contains `bad'`, its join is
+refused and ignored; `e` is not loaded -/
+theorem rejected_parent_load :
+    ((loadHeads acl' (fun h => if h = 6 then [e, bad', a] else [a]) (-1) (Log.empty 9) [1, 6]).map
+      (·.entries) |>.toOption) = some [a] := by decide
+
+/-- when the rejected parent comes in the *same* log as the child, the whole log is rejected: nothing
+is merged, nothing is reported, the log stays closed (`joinAll_closed`) -/
+theorem rejected_parent_same_log :
+    (joinAll acl' K1 [([e, bad'], [e])]).entries = K1.entries ∧ joinedEntries acl' K1 [([e, bad'], [e])] = [] := by
+  decide
+
